@@ -282,3 +282,72 @@ def in_list_values(validator) -> list | None:
         if isinstance(a, (ast.List, ast.Tuple, ast.Set)) and all(isinstance(e, ast.Constant) for e in a.elts):
             return [e.value for e in a.elts]
     return None
+
+
+# ------------------------------------------------------------------------------------------------
+# state that survives a run
+
+def cross_run_state(idx: "Index", prefix: str = ""):
+    """A module-level or class-level container that functions fill (caches, indexes, registries), or a memoised
+    function, makes a second in-process run depend on the first one's model.
+    -> (number of containers examined, [(rel, construct, message, lineno)])"""
+    MUT = ("append", "extend", "add", "update", "setdefault", "insert", "pop", "clear", "remove", "discard", "popitem")
+    nstate = 0
+    hits = []
+    for rel, m in sorted(idx.modules.items()):
+        if prefix and not rel.startswith(prefix):
+            continue
+        shared = {}
+        for st in m.tree.body:
+            tgt = val = None
+            if isinstance(st, ast.Assign) and len(st.targets) == 1:
+                tgt, val = st.targets[0], st.value
+            elif isinstance(st, ast.AnnAssign):
+                tgt, val = st.target, st.value
+            if isinstance(tgt, ast.Name) and val is not None and (
+                    isinstance(val, (ast.Dict, ast.List, ast.Set, ast.DictComp, ast.ListComp, ast.SetComp)) or
+                    (isinstance(val, ast.Call) and dotted(val.func) in ("dict", "list", "set", "collections.defaultdict",
+                                                                        "defaultdict", "collections.OrderedDict", "OrderedDict"))):
+                shared[tgt.id] = ("module", st.lineno)
+        for cname, c in m.classes.items():
+            for st in c.body:
+                tgt = val = None
+                if isinstance(st, ast.Assign) and len(st.targets) == 1:
+                    tgt, val = st.targets[0], st.value
+                elif isinstance(st, ast.AnnAssign):
+                    tgt, val = st.target, st.value
+                if isinstance(tgt, ast.Name) and val is not None and isinstance(val, (ast.Dict, ast.List, ast.Set)) \
+                        and not c.decorator_list:
+                    for pre in (cname, "self", "cls"):
+                        shared[f"{pre}.{tgt.id}"] = ("class", st.lineno)
+        nstate += len(shared)
+        for fn in m.all_functions():
+            for d in fn.decorator_list:
+                dn = dotted(d.func) if isinstance(d, ast.Call) else dotted(d)
+                if (dn or "").split(".")[-1] in ("lru_cache", "cache", "cached_property"):
+                    hits.append((rel, f"{rel}:{fn.name}:@{dn}",
+                                 f"{fn.name} is memoised ({dn}): results computed for an earlier model are reused", fn.lineno))
+            if not shared:
+                continue
+            rebinds = {n_.id for n_ in ast.walk(fn) if isinstance(n_, ast.Name) and isinstance(n_.ctx, ast.Store)}
+            globs = set()
+            for n_ in ast.walk(fn):
+                if isinstance(n_, ast.Global):
+                    globs |= set(n_.names)
+            for n_ in ast.walk(fn):
+                name = how = None
+                if isinstance(n_, ast.Call) and isinstance(n_.func, ast.Attribute) and n_.func.attr in MUT:
+                    name, how = dotted(n_.func.value), f".{n_.func.attr}()"
+                elif isinstance(n_, (ast.Assign, ast.AugAssign, ast.Delete)):
+                    tgts = n_.targets if isinstance(n_, (ast.Assign, ast.Delete)) else [n_.target]
+                    for t_ in tgts:
+                        if isinstance(t_, ast.Subscript):
+                            name, how = dotted(t_.value), "[...] = / del"
+                        elif isinstance(t_, ast.Name) and t_.id in globs and t_.id in shared:
+                            name, how = t_.id, "global rebinding"
+                if name in shared and not (name in rebinds and name not in globs and "." not in name):
+                    kind, ln = shared[name]
+                    hits.append((rel, f"{rel}:{fn.name}:{name}",
+                                 f"{fn.name} mutates the {kind}-level container `{name}` ({how}): what an earlier run (another "
+                                 f"model, in the same process) left there changes this run's output", n_.lineno))
+    return nstate, hits
